@@ -215,6 +215,19 @@ func (k *KindEnv) Of(info *types.Info, e ast.Expr) string {
 		}
 	case *ast.BinaryExpr:
 		l, r := k.Of(info, v.X), k.Of(info, v.Y)
+		// arithmetic on a number read off the stream is still the peer's number (n/2, n+8, n*4); a remainder or a mask by a
+		// constant is bounded by that constant
+		if l == "wire" || r == "wire" {
+			switch v.Op {
+			case token.ADD, token.SUB, token.MUL, token.QUO, token.SHL:
+				return "wire"
+			case token.SHR, token.REM, token.AND:
+				if r == "const" {
+					return ""
+				}
+				return "wire"
+			}
+		}
 		switch v.Op {
 		case token.MUL:
 			if (l == "chunk") != (r == "chunk") {
